@@ -13,7 +13,7 @@ RULE = ("a case is a namespace tree on disk with read_namespace / read_files cal
         "the definition files outside the closure of the targets (closure = least set containing the targets and every lookup whose "
         "lower-cased name and version match a reference of a member; computed by the generator, not by the implementation) - in a "
         "lookup directory, or for read_files elsewhere in the targets' own root - and the text of the victim is replaced by one of 14 "
-        "replacements (binary garbage, empty, syntax error, duplicate attribute, bad union, bad extent, failing @assert, @print, "
+        "replacements and 2 rare ones longer than 1 MiB (binary garbage, empty, syntax error, duplicate attribute, bad union, bad extent, failing @assert, @print, "
         "undefined reference, self reference, service instead of message, deprecated, delimited with another extent, huge array; victims "
         "that are other versions / case variants of a name referenced in the closure are preferred, and a stream of calls that FAIL in "
         "resolution - nonexistent version of a name that has other versions, wrong case, wrong namespace - is included), or "
@@ -53,6 +53,8 @@ REPLACEMENTS = [
     ("delimited", "uint8 a\n@extent 4096\n"),
     ("huge", "uint8[<=4000000000] a\n@sealed\n"),
 ]
+# longer than 1 MiB: a valid definition padded with a comment, and garbage (few cases: they are slow to write)
+BIG = [("big_valid", "uint8 a\n@sealed\n#" + "x" * (2 ** 20 + 10) + "\n"), ("big_garbage", "\x01%%<<" * (2 ** 18 + 3))]
 
 
 # ----------------------------------------------------------------------------------------------------------------
@@ -138,6 +140,9 @@ def gen_mutations(rng, case, q):
     victims.sort(key=lambda i: 0 if is_near(i) else 1)
     for v in victims[:3]:
         kind, text = rng.choice(REPLACEMENTS)
+        if rng.random() < 0.012:
+            kind = rng.choice(BIG)[0]
+            text = None                      # the text is produced by the runner (not stored in the case)
         if kind == "self_ref":
             text = "%s.%d.%d a\n@sealed\n" % (files[v]["short"], files[v]["maj"], files[v]["min"])
         muts.append({"m": "text", "file": v, "kind": kind, "text": text})
@@ -166,7 +171,7 @@ def gen_mutations(rng, case, q):
 
 
 def gen_case(rng, tier):
-    flavor = rng.choice(["plain", "plain", "plain", "plain", "errors", "twins", "badname", "failing", "failing"])
+    flavor = rng.choice(["plain", "plain", "plain", "plain", "errors", "twins", "badname", "failing", "failing", "digits"])
     opts = {"print_p": 0.3, "missing_p": 0.0, "badrel_p": 0.0, "fault_p": 0.0}
     if flavor == "errors":
         opts = {"print_p": 0.3, "missing_p": 0.03, "badrel_p": 0.02, "fault_p": 0.03, "cycle_p": 0.1}
@@ -193,6 +198,8 @@ def gen_case(rng, tier):
             f["port"] = 7000 + rng.choice([f["id"], f["id"], 0, 1])          # collisions between unrelated definitions on purpose
     if flavor == "twins":
         defs.append(B.make_twin(rng, defs, rng.choice(defs), True))
+    if flavor == "digits":
+        B.add_digits(rng, roots, defs, both=True)
     if flavor == "badname":
         o = rng.choice(defs)
         bad = rng.choice(["%s.1.dsdl", "%s.x.0.dsdl", "1.2.%s.1.0.dsdl", "%s.1.0.0.0.dsdl", "x.%s.1.0.dsdl", "%s.-1.0.dsdl", "%s.dsdl"]) % o["short"]
@@ -229,6 +236,7 @@ def corpus():
     rep = dict(REPLACEMENTS)
     qs = [{"k": "ns", "root": ns, "lookups": [lk], "allow": True,
            "mutations": [{"m": "text", "file": 3, "kind": k, "text": rep[k]} for k in ("garbage", "assert", "print", "service")] +
+                        [{"m": "text", "file": 3, "kind": k, "text": None} for k in ("big_valid", "big_garbage")] +
                         [{"m": "text", "file": 4, "kind": "delimited", "text": rep["delimited"]},
                          {"m": "add", "dir": lk + ["zq"], "base": "7000.Extra.1.0.dsdl", "kind": "add_port", "text": "uint8 a\n@sealed\n"},
                          {"m": "add", "dir": lk, "base": "L.1.9.dsdl", "kind": "add_kind", "text": "uint8 a\n@sealed\n---\n@sealed\n"}]},
@@ -316,7 +324,7 @@ def run_impl(cases):
                         idmap[os.path.realpath(p)] = vid
                     old = open(p, "rb").read() if m["m"] == "text" else None
                     with open(p, "w", encoding="latin-1") as fh:
-                        fh.write(m["text"])
+                        fh.write(m["text"] if m.get("text") is not None else dict(BIG)[m["kind"]])
                     try:
                         o2 = B.run_query(base, case, q, idmap, err_detail=True)
                     finally:
